@@ -28,6 +28,25 @@ pub fn run_in(dir: &Path, argv: &[String]) -> Ran {
     run_in_stdin(dir, argv, None)
 }
 
+/// Like `run_in`, with the process limited to `nofile` open file descriptors (`ulimit -n`).
+pub fn run_in_nofile(dir: &Path, argv: &[String], nofile: u32) -> Ran {
+    let exe = dir.join(&argv[0]);
+    let out = Command::new("/bin/sh")
+        .arg("-c")
+        .arg(format!("ulimit -n {}; exec \"$0\" \"$@\"", nofile))
+        .arg(&exe)
+        .args(&argv[1..])
+        .current_dir(dir)
+        .stdin(Stdio::null())
+        .stdout(Stdio::null())
+        .stderr(Stdio::piped())
+        .output();
+    match out {
+        Ok(o) => Ran { code: o.status.code(), stderr: String::from_utf8_lossy(&o.stderr).to_string(), stdout: String::new(), timed_out: false },
+        Err(e) => Ran { code: None, stderr: format!("HARNESS spawn: {}", e), stdout: String::new(), timed_out: false },
+    }
+}
+
 /// Like `run_in`, with standard input taken from the named file of the directory.
 pub fn run_in_stdin(dir: &Path, argv: &[String], stdin_file: Option<&str>) -> Ran {
     let exe = dir.join(&argv[0]);
@@ -229,6 +248,10 @@ fn c16_all(quick: bool) -> Vec<C16Case> {
             }
         }
     }
+    // many chromosomes through the multi-threaded to-text converter under a limit of 64 open files
+    for ucsc in [false, true] {
+        v.push(C16Case { bed: false, input: 98, threads: 4, parallel: s("auto"), single_pass: false, inmemory: true, uncompressed: false, block_size: 256, zooms: false, multicall: false, ucsc, stdin: false });
+    }
     // inputs of more than 200 MB with the default --parallel auto (input 99 is generated by the case)
     for (bed, threads, single_pass, ucsc) in [(false, 3usize, false, false), (true, 6, false, true)] {
         v.push(C16Case { bed, input: 99, threads, parallel: s("auto"), single_pass, inmemory: false, uncompressed: false, block_size: 256, zooms: false, multicall: ucsc, ucsc, stdin: false });
@@ -327,6 +350,60 @@ fn c16_over_200mb(c: &C16Case, out: &mut Outcome) {
     }
 }
 
+/// 600 chromosomes of 1 500 values converted back to text by several threads in a process that may
+/// hold at most 64 open files: the converter reopens the file once per chromosome, so it has to
+/// bound how many chromosomes are in flight; the text must hold every record whatever the limit.
+fn c16_low_fd(c: &C16Case, out: &mut Outcome) {
+    use std::io::Write as _;
+    let wd = workdir();
+    let dir = wd.path();
+    let (nchrom, per) = (600u32, 1500u32);
+    let mut sizes = String::new();
+    {
+        let mut f = std::io::BufWriter::with_capacity(1 << 20, std::fs::File::create(dir.join("in.bedGraph")).unwrap());
+        for ci in 0..nchrom {
+            sizes.push_str(&format!("c{:04}\t10000\n", ci));
+            for i in 0..per {
+                writeln!(f, "c{:04}\t{}\t{}\t{}", ci, 2 * i, 2 * i + 1, ((i + ci) % 89) as f32 * 0.25).unwrap();
+            }
+        }
+    }
+    std::fs::write(dir.join("sizes"), sizes).unwrap();
+    let tags = vec![s("bedgraph"), s("open_file_limit_64")];
+    let r = run_in(dir, &[s("bedgraphtobigwig"), s("in.bedGraph"), s("sizes"), s("out.bw")]);
+    out.count("process_runs", 1);
+    if r.timed_out || r.code != Some(0) {
+        out.fail("conversion_failed", &tags, format!("forward conversion: exit {:?} timed_out {} stderr {}", r.code, r.timed_out, r.stderr.chars().take(300).collect::<String>()));
+        return;
+    }
+    let parse = |b: &[u8]| -> Vec<(String, u32, u32, u32)> {
+        String::from_utf8_lossy(b)
+            .lines()
+            .map(|l| {
+                let f: Vec<&str> = l.split('\t').collect();
+                (f.first().unwrap_or(&"").to_string(), f.get(1).and_then(|x| x.parse().ok()).unwrap_or(u32::MAX), f.get(2).and_then(|x| x.parse().ok()).unwrap_or(u32::MAX), f.get(3).and_then(|x| x.parse::<f32>().ok()).map(|v| v.to_bits()).unwrap_or(u32::MAX))
+            })
+            .collect()
+    };
+    let want = parse(&std::fs::read(dir.join("in.bedGraph")).unwrap());
+    for threads in [2usize, 4, 8] {
+        let argv = vec![if c.ucsc { s("bigWigToBedGraph") } else { s("bigwigtobedgraph") }, s("out.bw"), s("back.bedGraph"), s("-t"), threads.to_string(), s("--inmemory")];
+        let _ = std::fs::remove_file(dir.join("back.bedGraph"));
+        let r = run_in_nofile(dir, &argv, 64);
+        out.count("process_runs", 1);
+        out.count("conversions_under_an_open_file_limit", 1);
+        let got = parse(&std::fs::read(dir.join("back.bedGraph")).unwrap_or_default());
+        if r.code == Some(0) {
+            if got != want {
+                out.fail("roundtrip_records_differ", &tags, format!("{:?} under ulimit -n 64: exit 0 with {} of {} records", argv, got.len(), want.len()));
+            }
+        } else {
+            // refusing loudly is not a round-trip violation; count it so that it is visible
+            out.count("conversions_refused_under_the_limit", 1);
+        }
+    }
+}
+
 impl Check for C16 {
     type Case = C16Case;
     fn id(&self) -> &'static str {
@@ -339,6 +416,10 @@ impl Check for C16 {
         out.nontrivial = true;
         if c.input == 99 {
             c16_over_200mb(c, out);
+            return;
+        }
+        if c.input == 98 {
+            c16_low_fd(c, out);
             return;
         }
         let wd = workdir();
@@ -694,7 +775,7 @@ fn merge_inputs() -> Vec<Vec<(String, Vec<(u32, u32, f32)>)>> {
 
 pub fn merge_tool_cases(quick: bool) -> Vec<MergeTool> {
     let mut v = vec![];
-    let outs: Vec<(&str, Option<&str>)> = vec![("out.bw", None), ("out.bigWig", None), ("out.bedGraph", None), ("out.dat", Some("bigwig")), ("out.dat", Some("BedGraph")), ("OUT.BW", None), ("out.bw", Some("bedgraph")), ("out.bedGraph", Some("bigwig"))];
+    let outs: Vec<(&str, Option<&str>)> = vec![("out.bw", None), ("out.bigWig", None), ("out.bedGraph", None), ("out.dat", Some("bigwig")), ("out.dat", Some("BedGraph")), ("OUT.BW", None), ("out.bw", Some("bedgraph")), ("out.bedGraph", Some("bigwig")), (".bw", None), ("sub/.bedGraph", None), (".bigWig", None), ("out.v2.bw", None), ("out.bw.bedGraph", None)];
     let mut n = 0;
     for inputs in [vec![0usize], vec![0, 1], vec![0, 1, 2], vec![1, 2]] {
         for clip in [None, Some(1.5f32)] {
@@ -727,6 +808,9 @@ pub fn merge_tool_cases(quick: bool) -> Vec<MergeTool> {
 pub fn c15_tool(t: &MergeTool, out: &mut Outcome) {
     let wd = workdir();
     let dir = wd.path();
+    if let Some(parent) = std::path::Path::new(&t.output).parent() {
+        let _ = std::fs::create_dir_all(dir.join(parent));
+    }
     let all = merge_inputs();
     let contents: Vec<Vec<(String, Vec<(u32, u32, f32)>)>> = if t.many > 0 {
         (0..t.many).map(|k| vec![(s("chrX"), vec![(10, 20, if k + 6 < t.many { -1.0 } else { 200.0 }), (30 + (k % 3) as u32, 40, 1.0)])]).collect()
@@ -1298,11 +1382,14 @@ pub struct RefuseTool {
     pub threads: usize,
     pub parallel: String,
     pub single_pass: bool,
+    /// the text arrives on standard input (named `-`)
+    #[serde(default)]
+    pub stdin: bool,
 }
 
 pub fn refuse_tool_cases(quick: bool) -> Vec<RefuseTool> {
     let mut v = vec![];
-    let whats = ["starts_out_of_order", "overlap", "start_after_end", "beyond_chrom", "unknown_chrom", "chrom_order", "chrom_repeated", "missing_end", "non_numeric_start", "bad_value", "space_separated", "empty_input", "valid"];
+    let whats = ["starts_out_of_order", "overlap", "start_after_end", "beyond_chrom", "unknown_chrom", "chrom_order", "chrom_repeated", "missing_end", "non_numeric_start", "bad_value", "space_separated", "empty_input", "valid", "missing_end_first", "non_numeric_start_first", "space_separated_first", "blank_first", "missing_end_last", "non_numeric_start_last"];
     for bed in [false, true] {
         for what in whats {
             if bed && (what == "overlap" || what == "bad_value") {
@@ -1313,21 +1400,27 @@ pub fn refuse_tool_cases(quick: bool) -> Vec<RefuseTool> {
                     if quick && single_pass && parallel == "auto" {
                         continue;
                     }
-                    v.push(RefuseTool { bed, what: s(what), threads, parallel: s(parallel), single_pass });
+                    v.push(RefuseTool { bed, what: s(what), threads, parallel: s(parallel), single_pass, stdin: false });
                 }
             }
+        }
+    }
+    // the same malformed first lines (and a valid input) arriving on standard input
+    for bed in [false, true] {
+        for what in ["missing_end_first", "non_numeric_start_first", "space_separated_first", "blank_first", "missing_end", "valid"] {
+            v.push(RefuseTool { bed, what: s(what), threads: 2, parallel: s("no"), single_pass: true, stdin: true });
         }
     }
     // bigwigmerge: a chromosome with different sizes in two inputs cannot be merged
     // a chromosome with more values than 100 sections hold (102 400): every thread count terminates
     for threads in [1usize, 2] {
-        v.push(RefuseTool { bed: false, what: s("merge_valid_big"), threads, parallel: s("no"), single_pass: false });
+        v.push(RefuseTool { bed: false, what: s("merge_valid_big"), threads, parallel: s("no"), single_pass: false, stdin: false });
     }
     for what in ["merge_mismatched_sizes", "merge_mismatched_sizes_first_chrom", "merge_valid"] {
         for threads in [1usize, 4] {
             for single_pass in [false, true] {
                 // single_pass selects the bedGraph output here
-                v.push(RefuseTool { bed: false, what: s(what), threads, parallel: s("no"), single_pass });
+                v.push(RefuseTool { bed: false, what: s(what), threads, parallel: s("no"), single_pass, stdin: false });
             }
         }
     }
@@ -1482,6 +1575,14 @@ fn refuse_tool_run(t: &RefuseTool, out: &mut Outcome, judge_leftover: bool) {
         "non_numeric_start" => raw = Some((4, s("chrB\tx30\t40\t1"))),
         "bad_value" => raw = Some((4, s("chrB\t30\t40\tabc"))),
         "space_separated" => raw = Some((4, s("chrB 30 40 1"))),
+        // the same at the very first and the very last line (the converters look at the first
+        // line on their own, before the writer sees it)
+        "missing_end_first" => raw = Some((0, s("chrA\t1"))),
+        "non_numeric_start_first" => raw = Some((0, s("chrA\tx1\t2\t1"))),
+        "space_separated_first" => raw = Some((0, s("chrA 1 2 1"))),
+        "blank_first" => raw = Some((0, s(""))),
+        "missing_end_last" => raw = Some((rows.len() - 1, s("chrC\t97"))),
+        "non_numeric_start_last" => raw = Some((rows.len() - 1, s("chrC\tx97\t98\t1"))),
         "empty_input" => rows.clear(),
         _ => {}
     }
@@ -1501,11 +1602,14 @@ fn refuse_tool_run(t: &RefuseTool, out: &mut Outcome, judge_leftover: bool) {
     }
     std::fs::write(dir.join("in.txt"), &text).unwrap();
     std::fs::write(dir.join("sizes"), "chrA\t100\nchrB\t100\nchrC\t100\n").unwrap();
-    let mut argv = vec![if t.bed { s("bedtobigbed") } else { s("bedgraphtobigwig") }, s("in.txt"), s("sizes"), s("out.bb"), s("-t"), t.threads.to_string(), s("-p"), t.parallel.clone()];
-    if t.single_pass {
+    let mut argv = vec![if t.bed { s("bedtobigbed") } else { s("bedgraphtobigwig") }, if t.stdin { s("-") } else { s("in.txt") }, s("sizes"), s("out.bb"), s("-t"), t.threads.to_string(), s("-p"), t.parallel.clone()];
+    if t.single_pass && !t.stdin {
         argv.push(s("--single-pass"));
     }
-    let r = run_in(dir, &argv);
+    let r = if t.stdin { run_in_stdin(dir, &argv, Some("in.txt")) } else { run_in(dir, &argv) };
+    if t.stdin {
+        out.count("tool_refusal_runs_on_standard_input", 1);
+    }
     out.count("tool_refusal_runs", 1);
     let tags = vec![format!("tool_{}", t.what), format!("parallel_{}", t.parallel), if t.bed { s("bigbed") } else { s("bigwig") }];
     if r.stderr.starts_with("HARNESS") {
